@@ -54,4 +54,5 @@ def main(tier):
     chk.run("R-ARRAYELEM", WN.arrayelem, cx.cpp, floor=6)
     chk.run("R-MIRROR", C.mirror, cx.cpp, floor=8)
     chk.run("R-PARTIALGUARD", C.partialguard, cx.repo, cx.templates, floor=4)
+    chk.run("R-NARROWSTORE", C.narrowstore, cx.repo, floor=2)
     return chk.finish()
